@@ -6,7 +6,9 @@ import (
 	"fmt"
 	"sort"
 
+	"github.com/gnolang/gno/tm2/pkg/amino"
 	"github.com/gnolang/gno/tm2/pkg/crypto"
+	"github.com/gnolang/gno/tm2/pkg/crypto/multisig"
 	"github.com/gnolang/gno/tm2/pkg/sdk/auth"
 	"github.com/gnolang/gno/tm2/pkg/std"
 
@@ -173,27 +175,89 @@ func (m *model) expect(tx std.Tx, nbytes int, now int64, bal func(crypto.Address
 			}
 			pub = h.key.Pub.Bytes()
 		}
-		r := m.sigs[hex.EncodeToString(sig.Signature)]
-		if r == nil || !r.good {
-			return false, "not-a-signature", nil
+		var pk crypto.PubKey = h.key.Pub
+		if sig.PubKey != nil {
+			pk = sig.PubKey
 		}
-		if !bytes.Equal(r.pub, pub) {
-			return false, "signed-by-other-key", nil
+		if mk, ok := pk.(multisig.PubKeyMultisigThreshold); ok {
+			// a multisignature is a container: decide on its content (which sub-keys are marked, what each listed signature is)
+			if why := m.multisigContent(mk, sig.Signature, h, body); why != "" {
+				return false, why, nil
+			}
+			continue
 		}
-		if r.chain != chainsim.ChainID {
-			return false, "signed-other-chain", nil
-		}
-		if r.num != h.num {
-			return false, "signed-other-account-number", nil
-		}
-		if r.seq != h.seq {
-			return false, "signed-other-sequence", nil
-		}
-		if r.body != body {
-			return false, "signed-other-body", nil
+		if why := m.single(sig.Signature, pub, h, body); why != "" {
+			return false, why, nil
 		}
 	}
 	return true, "valid", hs
+}
+
+// single decides one plain signature from the registry.
+func (m *model) single(sig []byte, pub []byte, h *holder, body string) string {
+	r := m.sigs[hex.EncodeToString(sig)]
+	switch {
+	case r == nil || !r.good:
+		return "not-a-signature"
+	case !bytes.Equal(r.pub, pub):
+		return "signed-by-other-key"
+	case r.chain != chainsim.ChainID:
+		return "signed-other-chain"
+	case r.num != h.num:
+		return "signed-other-account-number"
+	case r.seq != h.seq:
+		return "signed-other-sequence"
+	case r.body != body:
+		return "signed-other-body"
+	}
+	return ""
+}
+
+// multisigContent decodes the container with the wire codec and applies the
+// documented k-of-n rule with the harness's own bit arithmetic: the bit array
+// has exactly n positions, at least k are marked, between k and n signatures
+// are listed, and the j-th listed signature is a signature of the j-th marked
+// sub-key over the expected sign doc.
+func (m *model) multisigContent(mk multisig.PubKeyMultisigThreshold, blob []byte, h *holder, body string) string {
+	var ms multisig.Multisignature
+	if err := amino.Unmarshal(blob, &ms); err != nil {
+		return "multisig-undecodable"
+	}
+	n := len(mk.PubKeys)
+	if ms.BitArray == nil {
+		return "multisig-bitarray-size"
+	}
+	size := len(ms.BitArray.Elems) * 8
+	if ms.BitArray.ExtraBitsStored != 0 {
+		size = (len(ms.BitArray.Elems)-1)*8 + int(ms.BitArray.ExtraBitsStored)
+	}
+	if size != n {
+		return "multisig-bitarray-size"
+	}
+	if len(ms.Sigs) < int(mk.K) || len(ms.Sigs) > n {
+		return "multisig-signature-count"
+	}
+	var marked []int
+	for i := 0; i < n; i++ {
+		if i>>3 >= len(ms.BitArray.Elems) {
+			return "multisig-bitarray-size"
+		}
+		if ms.BitArray.Elems[i>>3]&(1<<uint(7-i%8)) != 0 {
+			marked = append(marked, i)
+		}
+	}
+	if len(marked) < int(mk.K) {
+		return "multisig-below-threshold"
+	}
+	if len(marked) > len(ms.Sigs) {
+		return "multisig-more-marks-than-signatures"
+	}
+	for j, i := range marked {
+		if why := m.single(ms.Sigs[j], mk.PubKeys[i].Bytes(), h, body); why != "" {
+			return "multisig-sub:" + why
+		}
+	}
+	return ""
 }
 
 // accept applies the ante effects of an accepted tx to the model.
